@@ -3109,7 +3109,7 @@ class TypeBlocks(ContainerOperand):
             {compare_class}
             {skipna}
         '''
-        if id(other) == id(self):
+        if skipna and id(other) == id(self):
             return True
 
         # NOTE: there is only one TypeBlocks class, but better to be consistent
